@@ -37,6 +37,7 @@ PROPS = {
             {'engine': 'verus', 'name': 'framing', 'tier': 'quick', 'role': 'remote_send/remote_recv: frame = header ++ body; recv returns the sent (endpoint, message) and consumes exactly one frame'},
             {'engine': 'verus', 'name': 'start_next', 'tier': 'quick', 'exclude_obligations': ['start.progress_on_replica_end'], 'role': 'receiving side: batches are iterated completely and in order (NetworkMessage::into_iter, NetworkDataIterator::next, Start::next stream equation)'},
             {'engine': 'verus', 'name': 'muxdemux', 'tier': 'quick', 'role': 'the forwarding loops of mux_thread / demux_thread: every queued (destination, message) written once in queue order; every decoded (destination, message) handed to the local channel of exactly that destination, in stream order; the loops stop only when the queue is closed / the stream has ended'},
+            {'engine': 'verus', 'name': 'network_sender', 'tier': 'quick', 'role': 'NetworkSender::send: a local sender puts the message unchanged on its channel; a remote sender enqueues (its own receiver endpoint, message) on the multiplexer queue; a failed send sends nothing and names the endpoint'},
         ],
         'explanation': 'Verus proof (unbounded buffer length / batch size, every batch mode, every timing) that the real Batcher hands the link '
                        'exactly the enqueued sequence: enqueue appends to the abstract view, flush/end send the whole pending tail as one batch '
